@@ -148,6 +148,9 @@ fn reply_elem(id: &str, items: &[Item]) -> E {
 struct Fake {
     case: Case,
     n: usize,
+    /// the request whose send reported an error to its caller although the bytes went out: the server
+    /// answers it like any other, with the positive reply of the operation under test
+    orphan: Option<usize>,
 }
 
 impl Server for Fake {
@@ -161,6 +164,14 @@ impl Server for Fake {
         self.n += 1;
         let body = if k == self.case.position {
             canonical(&reply_elem(&id, &self.case.items))
+        } else if Some(k) == self.orphan {
+            let positive = match self.case.op {
+                1 => vec![Item::Data],
+                4 => vec![Item::Load(vec![LoadItem::Ok])],
+                2 | 3 => vec![],
+                _ => vec![Item::Ok],
+            };
+            canonical(&reply_elem(&id, &positive))
         } else {
             canonical(&E::new(NS, "rpc-reply").attr("message-id", &id).kid(E::new(NS, "data").kid(E::new("urn:example", "other").text(&format!("OTHER{k}")))))
         };
@@ -193,15 +204,27 @@ fn run(ctx: &mut Ctx) -> Verdict {
     let order: Vec<usize> = (0..=case.others).map(|_| ctx.pick(8)).collect();
     let order2 = order.clone();
     let permute = ctx.pick(2) == 1;
-    ev!(ctx, "await order draws {order:?}, replies permuted: {permute}");
+    // one run in six (if there are other requests): the send of one of them reports an I/O error to its
+    // caller after the bytes went out; the caller gives that request up and carries on with the session
+    let orphan: Option<usize> = if case.others > 0 && ctx.chance(1, 6) {
+        let others: Vec<usize> = (0..=case.others).filter(|k| *k != case.position).collect();
+        Some(*ctx.tape.choose(&others))
+    } else {
+        None
+    };
+    if orphan.is_some() {
+        ctx.count("fault.send_error_after_delivery");
+    }
+    ev!(ctx, "await order draws {order:?}, replies permuted: {permute}, send error after delivery on request {orphan:?}");
     let (q, exec) = drive(
         ctx,
-        Box::new(Fake { case: case.clone(), n: 0 }),
+        Box::new(Fake { case: case.clone(), n: 0, orphan }),
         Some(hello_with(&[CAP_BASE10, CAP_CANDIDATE, CAP_JUNOS], "11")),
         SchedCfg { permute, ..SchedCfg::default() },
         move |net, _spawner| {
             Box::pin(async move {
                 let case = case2;
+                let net2 = net.clone();
                 let mut s = match Session::verif_new(SimTransport(net)).await {
                     Ok(s) => s,
                     Err(e) => {
@@ -213,6 +236,9 @@ fn run(ctx: &mut Ctx) -> Verdict {
                 let mut futs: Vec<(usize, bool, F)> = Vec::new();
                 for k in 0..=case.others {
                     if k != case.position {
+                        if Some(k) == orphan {
+                            net2.lock().unwrap().send_after.push_back(usize::MAX);
+                        }
                         match s.rpc::<Get, _>(|b| b.finish()).await {
                             Ok(f) => futs.push((k, false, Box::pin(async move {
                                 match f.await {
@@ -265,6 +291,11 @@ fn run(ctx: &mut Ctx) -> Verdict {
         return Verdict::violation("stuck", format!("{q:?}"));
     }
     for (k, s) in others_ok.lock().unwrap().iter() {
+        // the reply to a request given up after a send error belongs to nobody: whoever reads it off the
+        // transport fails with RequestNotFound, so the other requests are not judged in such a run
+        if orphan.is_some() {
+            break;
+        }
         if !s.contains(&format!("OTHER{k}")) {
             return Verdict::violation("other-request-disturbed", format!("request #{k} resolved to {s}"));
         }
@@ -331,7 +362,7 @@ pub static C08: PropSpec = PropSpec {
     runs: |t| if t == Tier::Thorough { 30_000_000 } else { 200_000 },
     enumerated: |_| 0,
     run,
-    rule: "one request of each reply type (lock, get, open-/close-configuration, load-configuration, commit-configuration) among 0-3 other outstanding requests, replies delivered in order or permuted and reply futures awaited in a seeded order; the server's reply is generated from the reply grammar: 0-4 rpc-error elements (all types/tags, severity error/warning, optional children; one in six with a vendor child such as Junos's <source-daemon> or an open-ended error-info child, which the library's reader may refuse - the reply must then still not be a success and no error may vanish from the reported list) and positive indications in every order, at top level or inside load-configuration-results with consistent or inconsistent load-error-count. Non-trivial = the document contains at least one rpc-error; distinct = distinct event-log hash (includes the generated document)",
+    rule: "one request of each reply type (lock, get, open-/close-configuration, load-configuration, commit-configuration) among 0-3 other outstanding requests, replies delivered in order or permuted and reply futures awaited in a seeded order; in one run of six the send of one of the other requests reports an I/O error after its bytes went out (the caller gives it up and carries on; the server answers it with the positive reply of the operation under test, which must not be taken for the reply to a later request); the server's reply is generated from the reply grammar: 0-4 rpc-error elements (all types/tags, severity error/warning, optional children; one in six with a vendor child such as Junos's <source-daemon> or an open-ended error-info child, which the library's reader may refuse - the reply must then still not be a success and no error may vanish from the reported list) and positive indications in every order, at top level or inside load-configuration-results with consistent or inconsistent load-error-count. Non-trivial = the document contains at least one rpc-error; distinct = distinct event-log hash (includes the generated document)",
     components: &[
         ("netconf session + message readers (rpc/mod.rs, rpc/error.rs, junos/mod.rs, junos/load_configuration.rs)", "real"),
         ("transport", "stub: in-memory"),
